@@ -3,7 +3,7 @@
     (Index pre-selection and Stats grouping are not modelled: the implementation
     runs them, the model never does, so their soundness is what the two-mode
     correspondence stream checks; see DESIGN.md 6/C07.) *)
-From LMD Require Import QE.Engine QE.RegexProofs C07.Proofs.
+From LMD Require Import QE.Engine QE.RegexProofs C07.Proofs C05.Proofs QE.Index QE.IndexProofs QE.StatsOpt QE.StatsOptProofs Gen.Schema.
 Open Scope N_scope.
 
 (** the matcher used by the model computes the denotational semantics of the
@@ -65,6 +65,65 @@ Theorem C07_dot_heuristic_witness :
   contains (s "axbc") (s "a.bc") = false.
 Proof. vm_compute. repeat split. eexists; split; reflexivity. Qed.
 
+(** *** index pre-selection (DataStore.GetPreFilteredData, model QE/Index.v [prefilter];
+    the stream compares the row ids the implementation pre-selects with [prefilter_ids] on every case) *)
+
+(** the pre-selection never drops a row the request selects *)
+Theorem C07_index_never_drops :
+  forall schema cfg rq bk td rows,
+    schema_ok schema = true -> In (rq_table rq) schema -> consistent schema bk ->
+    Forall (filt_wf (rq_table rq)) (rq_filter rq) ->
+    table_data bk (rq_table rq) = Some td ->
+    prefilter bk (rq_table rq) (rq_filter rq) = Some rows ->
+    forall r, In r (td_rows td) -> row_selected schema cfg rq bk td r = true -> In r rows.
+Proof. exact C07_index_sound. Qed.
+
+(** with and without the index the same rows are selected, in the same order (store in primary key order) *)
+Theorem C07_index_same_rows_same_order :
+  forall schema cfg rq bk td,
+    schema_ok schema = true -> In (rq_table rq) schema -> consistent schema bk ->
+    Forall (filt_wf (rq_table rq)) (rq_filter rq) ->
+    table_data bk (rq_table rq) = Some td -> store_sorted (rq_table rq) td ->
+    gather_indexed schema cfg rq bk = selected_rows schema cfg rq bk.
+Proof. exact gather_indexed_eq. Qed.
+
+(** lmd's real schema (regenerated from Objects.Tables on every run) satisfies the schema hypothesis *)
+Theorem C07_index_schema_ok : schema_ok Gen.Schema.schema = true.
+Proof. exact real_schema_ok. Qed.
+
+(** closed form on lmd's real schema: for every request the parser accepts (either mode) only two
+    boolean facts about the data are left - unique keys / closed group membership, and the store
+    in primary key order; the stream evaluates both on every generated dataset *)
+Theorem C07_index_parsed :
+  forall cfg opt lines rq bk,
+    parse_request Gen.Schema.schema opt lines = Ok rq ->
+    consistentb Gen.Schema.schema bk = true -> store_sortedb_at bk (rq_table rq) = true ->
+    gather_indexed Gen.Schema.schema cfg rq bk = selected_rows Gen.Schema.schema cfg rq bk.
+Proof. exact gather_indexed_eq_parsed_b. Qed.
+
+(** *** stats grouping (Request.optimizeStatsGroups / DataRow.CountStats, model QE/StatsOpt.v;
+    the stream compares the shape of req.StatsGrouped with [shapes (optimize ..)] on every optimised case) *)
+
+(** for every request the parser accepts, in either mode, counting over the grouped
+    program gives exactly the counters of the plain program - one row *)
+Theorem C07_grouping_sound :
+  forall schema opt lines rq x g accs,
+    parse_request schema opt lines = Ok rq ->
+    length accs = length (rq_stats rq) ->
+    optimize (rq_stats rq) = Some g ->
+    count_grouped x g accs = map2 (count_row x) (rq_stats rq) accs.
+Proof. exact grouping_sound_parsed. Qed.
+
+(** ... and over any list of rows *)
+Theorem C07_grouping_sound_rows :
+  forall schema opt lines rq g xs,
+    parse_request schema opt lines = Ok rq ->
+    optimize (rq_stats rq) = Some g ->
+    fold_left (fun accs x => count_grouped x g accs) xs (map (fun _ => acc0) (rq_stats rq)) =
+    map (fun st => acc_rows st xs) (rq_stats rq).
+Proof. exact grouping_sound_rows_parsed. Qed.
+
+
 Print Assumptions C07_matcher_correct.
 Print Assumptions C07_literal_regex_is_substring.
 Print Assumptions C07_literal_regex_is_substring_nocase.
@@ -74,3 +133,9 @@ Print Assumptions C07_trim_dotstar_suffix.
 Print Assumptions C07_shadow_column.
 Print Assumptions C07_flatten.
 Print Assumptions C07_dot_heuristic_witness.
+Print Assumptions C07_index_never_drops.
+Print Assumptions C07_index_same_rows_same_order.
+Print Assumptions C07_index_schema_ok.
+Print Assumptions C07_grouping_sound.
+Print Assumptions C07_grouping_sound_rows.
+Print Assumptions C07_index_parsed.
